@@ -480,7 +480,8 @@ def check_C05(sc: dict, out, facts: Facts) -> list[dict]:
         elif k == 'sigint':
             break
         elif k == 'timeout':
-            quiet += 1
+            if not str(e[1]).startswith('w'):
+                quiet += 1          # a poll of the coordinator (not a timer inside a task process, e.g. its lingering)
             if len(e) > 2 and isinstance(e[2], (int, float)):
                 clock_now = max(clock_now, float(e[2]))
             # at rest: three polls of the coordinator without any change - or the same 1.5 virtual seconds
